@@ -229,7 +229,10 @@ def _tensorclass_constructor(
         device=device,
         non_tensor_items=(),
     )
-    result = cls._from_tensordict(result, dict(non_tensor_items))
+    # the NonTensorData entries of the tensordict travel with the values
+    result = cls._from_tensordict(
+        result, {k: v for k, v in non_tensor_items if k not in keys}
+    )
     return result
 
 
